@@ -463,6 +463,9 @@ func (m *manualCoal) fire() {
 	m.queued = nil
 }
 
+func (m *manualCoal) armedNow() int32 { return atomic.LoadInt32(&m.armed) }
+func (m *manualCoal) disarm()         { atomic.StoreInt32(&m.armed, 0) }
+
 // fireAsync ends the window without waiting (the flush is expected to stall).
 func (m *manualCoal) fireAsync() bool {
 	select {
